@@ -175,6 +175,16 @@ theorem admits_round : ∀ (τ : Ty) (j v : PV), wf τ = true → isJson j = tru
     | floatBool b => exact .floatConv _
   | .str, j, v, _, _, h => by cases h; exact .str _
   | .bool, j, v, _, _, h => by cases h; exact .bool _
+  | .listAny, j, v, _, hj, h => by
+    cases h; rw [toDict_of_isJson _ hj]; exact .listAny _
+  | .tupleAny, j, v, _, hj, h => by
+    cases h with
+    | tupleAnyL xs =>
+      simp only [isJson] at hj
+      simp only [toDict, toDictL_of_isJsonL xs hj]; exact .tupleAnyL xs
+    | tupleAnyT xs => simp [isJson] at hj
+  | .dictAny, j, v, _, hj, h => by
+    cases h; rw [toDict_of_isJson _ hj]; exact .dictAny _
   | .list t, j, v, hw, hj, h => by
     cases h with
     | list hl =>
